@@ -251,6 +251,9 @@ func cmdCheck(args []string) int {
 	trace("generated")
 
 	timeout := 10000
+	if pc.TimeoutMs > 0 {
+		timeout = pc.TimeoutMs
+	}
 	if tier == "thorough" {
 		timeout = 120000
 	}
@@ -316,6 +319,12 @@ func cmdCheck(args []string) int {
 
 	// structural obligations (call-graph / frame sweeps)
 	structObls := eng.structuralObligations(pc)
+	// syntactic frame check of every verified function with an explicit modifies clause
+	for _, t := range tasks {
+		if t.fn != nil && t.mode == "verify" {
+			structObls = append(structObls, eng.frameObligations(t.fn, eng.db.Funcs[t.key])...)
+		}
+	}
 
 	// ---- verdicts
 	var records []oblRecord
@@ -606,7 +615,9 @@ func dischargeShared(fx *FnExec, obls []*Obligation, opt dischargeOpts, slots ch
 				valNames = append(valNames, v.Name)
 			}
 		}
-		script, gvs := c.QueryGV(o.Assume, goal, vals, opt.timeoutMs)
+		// the model values are only requested when a first, lean query has answered sat
+		script := c.Query(o.Assume, goal, nil, opt.timeoutMs)
+		modelScript, gvs := c.QueryGV(o.Assume, goal, vals, opt.timeoutMs)
 		o.GVKeys = map[string]string{}
 		for i, k := range gvs {
 			if k != "" {
@@ -622,6 +633,7 @@ func dischargeShared(fx *FnExec, obls []*Obligation, opt dischargeOpts, slots ch
 		go func(o *Obligation, script string) {
 			defer wg.Done()
 			defer func() { <-slots }()
+			modelScript := modelScript
 			to := opt.timeoutMs
 			if o.Cover && to > 5000 {
 				to = 5000
@@ -642,6 +654,11 @@ func dischargeShared(fx *FnExec, obls []*Obligation, opt dischargeOpts, slots ch
 			r := Solve(script, opt.workdir, o.Name, to, opt.all && !o.Cover)
 			o.Status, o.Backend, o.Output = r.Status, r.Backend, r.Output
 			o.Ms += r.Ms
+			if r.Status == "sat" && !o.Cover {
+				if r2 := Solve(modelScript, opt.workdir, o.Name+".model", to, false); r2.Status == "sat" {
+					o.Output = r2.Output
+				}
+			}
 		}(o, script)
 	}
 	wg.Wait()
